@@ -17,6 +17,8 @@ pub mod dnastring_ops;
 #[cfg(kani)]
 pub mod slice_ops;
 #[cfg(kani)]
+pub mod graph_ops;
+#[cfg(kani)]
 pub mod stubs;
 #[cfg(kani)]
 pub mod gen;
